@@ -2,7 +2,7 @@
    sol_* / ral_* layouts are GENERATED from Messages.sol parseVM and governance.ral parseAndVerifyVAA on every run. *)
 From Coq Require Import List ZArith Lia Bool Arith.
 From Coq Require Import Strings.Byte.
-From WH Require Import lib.Bytes lib.Layout lib.Keccak gen.Extracted model.Vaa model.Contracts proofs.VaaProofs proofs.LayoutProofs proofs.KeccakProofs.
+From WH Require Import lib.Bytes lib.Layout lib.Keccak gen.Extracted gen.ExtractedKeccak model.Vaa model.Contracts proofs.VaaProofs proofs.LayoutProofs proofs.KeccakProofs.
 Import ListNotations.
 Open Scope Z_scope.
 
@@ -26,6 +26,21 @@ Proof. reflexivity. Qed.
 Theorem C04_digest_is_concrete : forall v,
   digest keccak256 v = keccak256 (keccak256 (body v)) /\ length (digest keccak256 v) = 32%nat.
 Proof. intros v. split; [reflexivity|apply keccak256_length]. Qed.
+
+(* tie to the source, regenerated on every run (gen/x_keccak.py): go_signing_digest is GENERATED from the expression in
+   structs.go SigningMsg (how many nested crypto.Keccak256Hash calls around v.signingBody()); x_sha3_* are read from the
+   golang.org/x/crypto version node/go.mod names (sha3.NewLegacyKeccak256 = what go-ethereum crypto.Keccak256 runs) *)
+Theorem C04_digest_follows_source : forall keccak v, digest keccak v = go_signing_digest keccak (body v).
+Proof. reflexivity. Qed.
+
+Theorem C04_keccak_parameters_follow_source :
+  rate = x_sha3_legacy_rate /\ (forall m, length (keccak256 m) = x_sha3_legacy_outlen) /\ round_constants = x_sha3_rc /\
+  (forall m, exists s, pad m = m ++ s /\
+     (s = [byte_of_N (N.lor x_sha3_legacy_dsbyte x_sha3_final_bit)] \/
+      exists k, s = byte_of_N x_sha3_legacy_dsbyte :: repeat x00 k ++ [byte_of_N x_sha3_final_bit]) /\ (1 <= length s <= rate)%nat).
+Proof.
+  repeat apply conj; [reflexivity|exact keccak256_length|reflexivity|exact pad_shape].
+Qed.
 
 (* the sponge: the padded message is a positive number of whole 136-byte blocks that starts with the message itself, padding loses
    nothing (injective), the blocks are absorbed in order (xor into the 17 rate lanes, then the permutation), 32 bytes are squeezed *)
@@ -157,3 +172,5 @@ Print Assumptions C04_keccak_padding_injective.
 Print Assumptions C04_keccak_sponge_structure.
 Print Assumptions C04_keccak_lanes_are_64bit.
 Print Assumptions C04_keccak_table_validator.
+Print Assumptions C04_digest_follows_source.
+Print Assumptions C04_keccak_parameters_follow_source.
